@@ -57,12 +57,19 @@ checks = {
    technique="exhaustive enumeration of exclusion/update directives (configuration-time and run-time ctl forms, single id / list / range / tag / msg, exclusion and addition targets, string and regex keys, action updates, three ctl placements) over a base rule set x all requests of a 27-element family, executed on the real engine; differential oracle against the explicitly rewritten configuration, plus a second transaction on the same WAF for ctl forms",
    text="For each directive of the family and each request the outcome (interruption, fired rules, match data, messages, TX marker) must equal that of the configuration rewritten by hand in structured form; a ctl executed in one transaction must not affect the next transaction on the same WAF.",
    note="Trusted: the structured rewrite rules in go/c17 as the restatement of 'behaves like the rule written with those targets/actions'. Bounded: 5 base rules (one chain, one marker), 3 argument names, 2 values."),
+ "C06": dict(level="model_checking", design="§3 C06", engine="sched+mc (-race)",
+   technique="stateless model checking of the implementation: controlled cooperative scheduler over every sync/atomic/singleflight/pool operation of coraza (selector-redirected shims) plus a point between API calls, depth-first enumeration of all interleavings up to a preemption bound, each execution run under the Go race detector with a hand-off the detector cannot see; per-thread outcome oracle against sequential runs",
+   text="2-3 threads (two transactions on a shared WAF, a thread building/closing a second WAF that shares patterns, first transactions of a freshly built WAF) are explored under every schedule within the preemption bound in the default and the multiphase build: no race report, no deadlock, no panic, every thread's outcome and the audit records equal the sequential outcomes. The engine self-tests in every run (lost update found, unprotected counter reported, mutex-protected counter silent, lock inversion = deadlock).",
+   note="Trusted: scheduling points = synchronisation operations of the module + API-call boundaries; code between them is atomic for the scheduler and its unsynchronised accesses are the race detector's job (incidental synchronisation inside fmt/reflect can hide a race in some schedules; pausing threads between API calls is what exposes them). Bounds: preemptions 2-3 (quick) / 3-4 (thorough), 3 threads, one transaction per thread. One open known finding (multiphase build only)."),
 }
 not_applicable = {}
 
 engines = [
  {"name": "instr", "path": "tools/instr", "serves_properties": props, "kind_free_text": "go/types-based source rewriter producing a go build -overlay: virtual packages, selector redirection to shims (the hooks), map-range order control"},
- {"name": "mc", "path": "go/mc", "serves_properties": ["C01","C03","C04","C09","C12","C20"], "kind_free_text": "stateless deviation-bounded DFS over choice points (map order, pool reuse, injected faults) with prefix-replay divergence detection"},
+ {"name": "mc", "path": "go/mc", "serves_properties": ["C01","C03","C04","C06","C09","C12","C19","C20"], "kind_free_text": "stateless deviation-bounded DFS over choice points (map order, pool reuse, injected faults, scheduling decisions) with prefix-replay divergence detection and level-1 sharding"},
+ {"name": "sched", "path": "go/sched", "serves_properties": ["C06","C19"], "kind_free_text": "controlled cooperative thread scheduler over the sync shims; race-detector-transparent hand-off; deadlock detection"},
+ {"name": "bfs", "path": "go/bfs", "serves_properties": ["C02","C10","C13"], "kind_free_text": "explicit-state breadth-first search over operation histories replayed on fresh real objects"},
+ {"name": "secmodel", "path": "go/secmodel", "serves_properties": ["C01"], "kind_free_text": "reference interpreter for the generated SecLang core"},
  {"name": "runner", "path": "go/runner", "serves_properties": props, "kind_free_text": "sharding over worker processes, evidence, known findings, replay files"},
 ]
 
